@@ -180,6 +180,16 @@ def handle (toks : List String) : Option String :=
       | .ok b => if b then "ok 1" else "ok 0"
       | .error _ => "err"
     | none => bad
+  | ["cond2", _consumer, toksA, toksB, _exp] =>
+    -- two statements decided one after the other by the same interpreter thread: each on its own
+    -- (a statement's value does not depend on what was decided before)
+    match decList toksA, decList toksB with
+    | some a, some b =>
+      let one := fun ts => match evalSlice ts with
+        | .ok v => if v then "ok 1" else "ok 0"
+        | .error _ => "err"
+      one a ++ " " ++ one b
+    | _, _ => bad
   | ["truthy", v] =>
     match decOpt v with
     | some v => if isTrue v then "1" else "0"
